@@ -328,6 +328,10 @@ def run_program(src, budget=40000):
 #     every line of the selection was executed), and jedi's flow analysis cannot decide a condition
 #     statically from a partial inference (`u = K; if u % 3:` is `always true` for it - root cause
 #     extract-function-unreachable-branch-name-becomes-parameter, kept alive by corpus/C06);
+#   * closures (FlowG.closure_stmt): a lambda / local def whose body reads locals of the entry function as free
+#     variables, defined some statements behind the binding of those locals and called a few statements further on
+#     (controls: default argument, shadowing parameter, comprehension); a captured name is never rebound afterwards,
+#     and between definition and call only fresh names are bound (python closures bind late);
 # The behaviour of an entry function on an argument tuple is its return value.
 
 FLOW_LOCALS = ['acc', 'b', 'cnt', 'd', 'e', 'g', 'h', 'k', 'm', 'n', 'r', 's', 'tot', 'u', 'v', 'w', 'x', 'y', 'z',
